@@ -4,6 +4,7 @@ import (
 	"bytes"
 	"html/template"
 	"log"
+	"strconv"
 )
 
 func New() *XMLWriter {
@@ -52,7 +53,7 @@ func (w *XMLWriter) Attr(key, value string) *XMLWriter {
 		w.b.WriteString(" ")
 		w.b.WriteString(key)
 		w.b.WriteString("=\"")
-		w.writeEsc(value)
+		w.writeEsc(value, true)
 		w.b.WriteString("\"")
 	} else {
 		log.Print("tag is not open")
@@ -86,7 +87,7 @@ func (w *XMLWriter) write(s string) {
 func (w *XMLWriter) Write(s string) *XMLWriter {
 	w.checkOpenTag()
 	w.checkIndent()
-	w.writeEsc(s)
+	w.writeEsc(s, false)
 	return w
 }
 
@@ -96,9 +97,18 @@ func (w *XMLWriter) WriteHTML(s template.HTML) *XMLWriter {
 	return w
 }
 
-func (w *XMLWriter) writeEsc(s string) {
+// writeEsc writes the escaped string. A parser replaces a carriage return by a line
+// feed, and within an attribute value every white space character by a blank, so
+// these characters are written as character references.
+func (w *XMLWriter) writeEsc(s string, attr bool) {
 	for _, r := range s {
+		if attr && (r == '\t' || r == '\n') {
+			w.b.WriteString("&#" + strconv.Itoa(int(r)) + ";")
+			continue
+		}
 		switch r {
+		case '\r':
+			w.b.WriteString("&#13;")
 		case '\'':
 			w.b.WriteString("&apos;")
 		case '"':
